@@ -33,6 +33,22 @@ type noteKey struct {
 	hash uint32 // the key hash that appears in signature lines and that its verifier reports
 }
 
+// cname / aname: the specification's key names are letters; the second one is spelled with two characters beyond ASCII whose
+// UTF-8 encodings contain the bytes 0xA0 and 0x85 (on their own the code points of NBSP and NEL, which a name may not contain)
+func cname(n string) string {
+	if n == "B" {
+		return "B\u00e0\u0405"
+	}
+	return n
+}
+
+func aname(n string) string {
+	if n == "B\u00e0\u0405" {
+		return "B"
+	}
+	return n
+}
+
 func realKeyHash(name string, pub ed25519.PublicKey) uint32 {
 	h := sha256.New()
 	h.Write([]byte(name))
@@ -44,6 +60,7 @@ func realKeyHash(name string, pub ed25519.PublicKey) uint32 {
 var noteKeys = func() map[int]*noteKey {
 	m := map[int]*noteKey{}
 	for id, name := range map[int]string{1: "A", 2: "B", 3: "A", 4: "A", 5: "A", 6: "A"} {
+		name = cname(name)
 		seed := sha256.Sum256([]byte(fmt.Sprintf("note key %d", id)))
 		priv := ed25519.NewKeyFromSeed(seed[:])
 		k := &noteKey{id: id, name: name, priv: priv, pub: priv.Public().(ed25519.PublicKey)}
@@ -152,10 +169,11 @@ func lineTextF(l noteLine, form int) string {
 		if l.ID%2 == 1 {
 			return fmt.Sprintf("text line %d \u00e9 \ufffd \u4e2d", l.ID) // valid UTF-8, including an encoded U+FFFD
 		}
-		return fmt.Sprintf("text line %d", l.ID)
+		// even lines begin with U+FEFF (a text may begin with it; it is a character like any other, not a mark to strip)
+		return fmt.Sprintf("\ufefftext line %d", l.ID)
 	}
 	// signature line
-	name := l.Name
+	name := cname(l.Name)
 	if !l.NameOK {
 		name = "bad+name"
 	}
@@ -441,7 +459,7 @@ func judgeOpen(c *core.Case, msg noteMsg, keys []int, liar bool, form int, expKi
 			for i := 0; ok && i < len(have); i++ {
 				name, _ := want[i][0].(string)
 				h, _ := want[i][1].(float64)
-				if have[i].Name != name || have[i].Hash != concreteHash(int(h)) {
+				if have[i].Name != cname(name) || have[i].Hash != concreteHash(int(h)) {
 					ok = false
 				}
 			}
@@ -510,10 +528,10 @@ func (w *noteWorld) Record(rng *rand.Rand, n int, emit func(k string, in, obs an
 			textIdx := -1
 			if got != nil {
 				for _, s := range got.Sigs {
-					sigs = append(sigs, [2]any{s.Name, modelHash(s.Hash)})
+					sigs = append(sigs, [2]any{aname(s.Name), modelHash(s.Hash)})
 				}
 				for _, s := range got.UnverifiedSigs {
-					unsigs = append(unsigs, [2]any{s.Name, modelHash(s.Hash)})
+					unsigs = append(unsigs, [2]any{aname(s.Name), modelHash(s.Hash)})
 				}
 				textIdx = strings.Count(got.Text, "\n")
 				if !bytes.HasPrefix(m, []byte(got.Text)) {
@@ -607,7 +625,7 @@ func abstractMsg(m []byte) (map[string]any, bool) {
 			if key != 0 {
 				over = "own"
 			}
-			lines = append(lines, map[string]any{"k": "sig", "name": name, "nameok": nameok, "hash": hash, "key": key, "over": over, "form": form, "uid": uid[l], "bad": hasBadChar(l)})
+			lines = append(lines, map[string]any{"k": "sig", "name": aname(name), "nameok": nameok, "hash": hash, "key": key, "over": over, "form": form, "uid": uid[l], "bad": hasBadChar(l)})
 		default:
 			lines = append(lines, map[string]any{"k": "txt", "id": idx, "bad": hasBadChar(l)})
 		}
